@@ -850,6 +850,108 @@ fn check_program(
     out
 }
 
+// ------------------------------------------------------------------------------------------
+// coverage-guided stage
+// ------------------------------------------------------------------------------------------
+
+/// Entry point of the libFuzzer target `c05_ligtable_words` (harness/vfuzz). Line 1 is the body of a `(LIGTABLE ...)` in
+/// property-list syntax (`(LABEL C a)(LIG C b C x)(KRN C c R 0.5)(STOP)(SKIP D 1)...`, read the way PLtoTF reads it),
+/// line 2 optionally a right boundary character, line 3 words. Programs outside TeX's domain (`well_formed`) are skipped;
+/// the others go through `check_program`, the oracle of all generated phases: compile with the real code, loop report in
+/// both directions against the two models, then every word with and without the left boundary through the real iterator
+/// and the direct interpretation (glyph/kern sequence, conservation of the word's characters).
+pub fn fuzz_one(data: &[u8], obs: &mut Obs) {
+    let Ok(text) = std::str::from_utf8(data) else {
+        return;
+    };
+    if !text.is_ascii() {
+        return;
+    }
+    let mut it = text.split('\n');
+    let (table, rb, words) = (it.next().unwrap_or(""), it.next().unwrap_or(""), it.next().unwrap_or(""));
+    let rb = rb.bytes().next().filter(|b| b.is_ascii_graphic());
+    let Ok(prog) = hand::parse_ligtable(table, rb) else {
+        obs.skip("fuzz:ligtable-not-in-the-subset-read-by-the-harness");
+        return;
+    };
+    if prog.instrs.is_empty() || prog.instrs.len() > 48 || !prog.well_formed() {
+        obs.skip("fuzz:program-empty-too-long-or-outside-TeX's-domain");
+        return;
+    }
+    let mut specs: Vec<RunSpec> = vec![];
+    for w in words.split(' ').filter(|w| !w.is_empty() && w.len() <= 12).take(10) {
+        if !w.bytes().all(|b| b.is_ascii_graphic()) {
+            continue;
+        }
+        for lb in [true, false] {
+            specs.push(RunSpec { word: w.as_bytes().to_vec(), left_boundary: lb, rb_override: None });
+        }
+    }
+    let mode = if table.len() % 2 == 0 { KernMode::Inline } else { KernMode::Indexed };
+    check_program(&prog, 10 << 20, mode, Level::Sequence, &mut specs.into_iter(), obs);
+}
+
+/// Seed corpus (the hand-built programs of the repository's tests and generated ones, printed in the syntax above) and
+/// dictionary for the libFuzzer target.
+pub fn fuzz_seeds() -> vcore::fuzzglue::Seeds {
+    let mut inputs = vec![];
+    let render = |p: &lk::Prog| -> String {
+        // labels by instruction index
+        let mut out = String::new();
+        for (i, ins) in p.instrs.iter().enumerate() {
+            if p.left_entry == Some(i) {
+                out.push_str("(LABEL BOUNDARYCHAR)");
+            }
+            let mut labels: Vec<u8> = p.entry.iter().filter(|(_, e)| **e == i).map(|(c, _)| *c).collect();
+            labels.sort_unstable();
+            for c in labels {
+                out.push_str(&format!("(LABEL C {})", c as char));
+            }
+            match ins.op {
+                lk::Op::Kern(v) => out.push_str(&format!("(KRN C {} R {})", ins.right as char, fa::print_fix_word(v))),
+                lk::Op::Lig { code, insert } => {
+                    out.push_str(&format!("({} C {} C {})", lk::lig_name(code), ins.right as char, insert as char))
+                }
+                lk::Op::Stop => {}
+            }
+            match ins.skip {
+                None => out.push_str("(STOP)"),
+                Some(0) => {}
+                Some(n) => out.push_str(&format!("(SKIP D {n})")),
+            }
+        }
+        out
+    };
+    for k in 0..300u64 {
+        let mut rng = Rng::new(0xC05 + k);
+        let g = generate(&mut rng);
+        if !g.prog.well_formed() || g.prog.instrs.len() > 48 {
+            continue;
+        }
+        let printable = |b: u8| b.is_ascii_graphic() && b != b'(' && b != b')';
+        if !g.alphabet.iter().all(|b| printable(*b))
+            || !g.prog.instrs.iter().all(|i| printable(i.right) && !matches!(i.op, lk::Op::Lig { insert, .. } if !printable(insert)))
+        {
+            continue;
+        }
+        let mut words: Vec<String> = vec![];
+        for _ in 0..6 {
+            let n = rng.range_usize(1, 8);
+            words.push((0..n).map(|_| *rng.pick(&g.alphabet) as char).collect());
+        }
+        let rb = g.prog.right_boundary.filter(|b| printable(*b)).map(|b| (b as char).to_string()).unwrap_or_default();
+        inputs.push(format!("{}\n{}\n{}", render(&g.prog), rb, words.join(" ")).into_bytes());
+    }
+    let mut dictionary: Vec<String> = ["(LABEL C ", "(LABEL BOUNDARYCHAR)", "(KRN C ", " R 0.5)", "(STOP)", "(SKIP D 1)", "(SKIP D 2)", " C ", ")", "\n"]
+        .iter()
+        .map(|s| s.to_string())
+        .collect();
+    for c in lk::LIG_CODES.iter() {
+        dictionary.push(format!("({} C ", lk::lig_name(*c)));
+    }
+    vcore::fuzzglue::Seeds { inputs, dictionary }
+}
+
 fn words_up_to(alphabet: &[u8], max_len: usize) -> Vec<Vec<u8>> {
     let mut out: Vec<Vec<u8>> = vec![];
     let mut layer: Vec<Vec<u8>> = vec![vec![]];
